@@ -2,7 +2,11 @@
 
 package NoKV
 
-import "sync/atomic"
+import (
+	"sync/atomic"
+
+	"github.com/feichai0017/NoKV/kv"
+)
 
 // Verification accessors for the transaction oracle (injected through -overlay by
 // /verif/vcheck; never part of the repository build). They only read existing state.
@@ -24,3 +28,18 @@ func (db *DB) VerifOracleInfo() (next, readDone, txnDone, lastCleanup uint64, co
 
 // VerifThrottled reports whether the write throttle is currently engaged.
 func (db *DB) VerifThrottled() bool { return atomic.LoadInt32(&db.blockWrites) == 1 }
+
+// VerifReadValuePtr resolves an encoded value pointer through the value log, exactly as
+// the read path does after an LSM lookup (no lookup involved).
+func (db *DB) VerifReadValuePtr(encoded []byte) ([]byte, error) {
+	var vp kv.ValuePtr
+	vp.Decode(encoded)
+	val, cb, err := db.vlog.read(&vp)
+	if cb != nil {
+		defer kv.RunCallback(cb)
+	}
+	if err != nil {
+		return nil, err
+	}
+	return append([]byte{}, val...), nil
+}
